@@ -649,8 +649,17 @@ class Run:
             if r is None:
                 r = self.pat_guard(v, cond["pat"])
             if r:
-                env.update(env2)
-                return self.block(e["then"], env)
+                # the pattern's bindings live in the then-block only (they may shadow an outer name, which is intact afterwards)
+                bound = []
+                _pnames(cond["pat"], bound)
+                env3 = dict(env)
+                env3.update({k2: v2 for k2, v2 in env2.items() if k2 in bound})
+                try:
+                    return self.block(e["then"], env3)
+                finally:
+                    for k2 in list(env.keys()):
+                        if k2 in env3 and k2 not in bound:
+                            env[k2] = env3[k2]
             if e.get("else"):
                 return self.eval(e["else"], env)
             return UNIT
@@ -1469,6 +1478,40 @@ class Run:
 
     def e_MethodCall(self, e, env):
         m = e["m"]
+        if m == "extend" and len(e["args"]) == 1 and self.cfg.generic_loops and e["args"][0].get("k") == "MethodCall" and self._peel_stages(e["args"][0])[1]:
+            # `v.extend(SRC.filter(c).map(f))` is `for it in SRC { if !c(it) { continue }; v.push(f(it)) }`
+            Run._stage_n += 1
+            k = Run._stage_n
+            first = "__it%d" % k
+            src, stages = self._peel_stages(e["args"][0])
+            env2 = dict(env)
+            stmts, last = self._stage_stmts(stages, env2, first)
+            P = lambda n_: {"k": "Path", "path": n_, "generics": None, "qself": None}
+            push = {"k": "ExprStmt", "e": {"k": "MethodCall", "recv": e["recv"], "m": "push", "args": [P(last)], "turbofish": None}, "semi": True}
+            loop = {"k": "For", "pat": {"k": "PIdent", "name": first, "sub": None, "byref": False, "mut": False}, "iter": src, "body": stmts + [push], "label": None}
+            self.e_For(loop, env2)
+            for k2 in list(env.keys()):
+                if k2 in env2:
+                    env[k2] = env2[k2]
+            return UNIT
+        if m == "for_each" and len(e["args"]) == 1 and e["args"][0].get("k") == "Closure" and len(e["args"][0].get("params", [])) == 1 and self.cfg.generic_loops \
+                and e["recv"].get("k") == "MethodCall" and self._iterish(e["recv"]):
+            # `SRC.for_each(f)` is `for it in SRC { f(it) }`
+            Run._stage_n += 1
+            k = Run._stage_n
+            first, fn = "__it%d" % k, "__each%d" % k
+            src, stages = self._peel_stages(e["recv"])
+            env2 = dict(env)
+            stmts, last = self._stage_stmts(stages, env2, first)
+            env2[fn] = self.eval(e["args"][0], env2)
+            P = lambda n_: {"k": "Path", "path": n_, "generics": None, "qself": None}
+            body = stmts + [{"k": "ExprStmt", "e": {"k": "Call", "f": P(fn), "args": [P(last)]}, "semi": True}]
+            loop = {"k": "For", "pat": {"k": "PIdent", "name": first, "sub": None, "byref": False, "mut": False}, "iter": src, "body": body, "label": None}
+            self.e_For(loop, env2)
+            for k2 in list(env.keys()):
+                if k2 in env2:
+                    env[k2] = env2[k2]
+            return UNIT
         if m in ("find_map", "find") and len(e["args"]) == 1 and e["args"][0].get("k") == "Closure" and len(e["args"][0].get("params", [])) == 1 \
                 and self.cfg.generic_loops and e["recv"].get("k") in ("MethodCall", "Path", "Field") and self._iterish(e["recv"]):
             # a searching terminal is the loop it stands for: `SRC.find_map(f)` is
